@@ -59,7 +59,7 @@ type blockObs struct {
 var ledgerDenoms = []string{world.Denom, "utwo", "uthree"}
 
 func ledgerWorld(c ledgerCase) *world.World {
-	cfg := world.Config{MaxGas: c.MaxGas, NumWallets: 4, Contracts: StdContracts(), MinGasPrice: c.MinGas}
+	cfg := world.Config{MaxGas: c.MaxGas, NumWallets: 4, Contracts: StdContracts(), MinGasPrice: c.MinGas, DeployErc20: true}
 	if c.BaseFee != "" {
 		b, ok := new(big.Int).SetString(c.BaseFee, 10)
 		if !ok {
